@@ -543,3 +543,35 @@ Definition pur_verdict (c : pur_case) : verdict :=
   else if existsb (fun v => match v with Differ => true | _ => false end) vs then Differ
   else if existsb (fun v => match v with ImplError => true | _ => false end) vs then ImplError
   else ModelUndefined.
+
+(* ---- C04: sweeps ---- *)
+From Lekkersim Require Import Sweep.
+
+Record swp_case := { sw_tree : ptree; sw_kw : sdict; sw_obs : obs (list (list QcCf)) }.
+
+Definition swp_verdict (c : swp_case) : verdict :=
+  match sweep_solve (deliver fnlib (sw_tree c)) (sw_kw c), sw_obs c with
+  | Ok pts, Obs o =>
+      if Nat.eqb (List.length pts) (List.length o) && all2 vals_close pts o then Agree else Differ
+  | Ok _, Raised => ImplError
+  | Err _, Raised => BothReject
+  | Err _, Obs _ => Differ            (* inconsistent lengths must be rejected *)
+  end.
+
+(* library blocks: the scalar solves are the oracle (a section variable standing for create_S);
+   the model stacks them; equality with the observed sweep is exact (same floating-point path) *)
+Record blk_case := { bk_scalar : list (obs lmx); bk_sweep : obs (list lmx) }.
+
+Definition lmx_eq (a b : lmx) : bool :=
+  Nat.eqb (List.length a) (List.length b) &&
+  all2 (fun r s => Nat.eqb (List.length r) (List.length s) && all2 (cclose BigQ.zero) r s) a b.
+
+Definition blk_verdict (c : blk_case) : verdict :=
+    match bk_sweep c with
+    | Raised => if forallb (fun o => match o with Raised => true | _ => false end) (bk_scalar c)
+                then BothReject else ImplError
+    | Obs sw =>
+        if Nat.eqb (List.length sw) (List.length (bk_scalar c)) &&
+           all2 (fun o m => match o with Obs s => lmx_eq s m | Raised => false end) (bk_scalar c) sw
+        then Agree else Differ
+    end.
